@@ -388,6 +388,7 @@ func (l *sysLog) snapshot() []string {
 //	Restore <c>                  Restore returned;  DeqCall <c>  the connection's first Dequeue call
 //	Closed <c>                   the closed signal fired (logged by a watcher: never early, possibly late)
 //	Err <event> <c>              the connection logged an error event
+//	PublishOverlap <msg> <c>     a Publish call of the connection was entered while another one of it was in progress
 type RecBackend struct {
 	*broker.MemoryBackend
 	log      *sysLog
@@ -423,6 +424,10 @@ type RecBackend struct {
 	pubIn, pubOut map[string]int
 	// observations made at the gates: the closed signal of a connection fired although its cleanup had not finished
 	early []string
+	// the first Publish call made with one of these client ids takes this long (a slow backend call: whatever the
+	// connection does concurrently with it becomes visible)
+	slowFirst map[string]time.Duration
+	inPub     map[*broker.Client]int // Publish calls in progress per connection
 }
 
 func (b *RecBackend) holdTerminate(id string, n int) func() {
@@ -565,7 +570,7 @@ func newRecBackend() *RecBackend {
 		gateOf: map[*broker.Client]string{}, authGate: map[string]chan struct{}{}, authAt: map[string]bool{}, setupGate: map[string]chan struct{}{},
 		willGate: map[string]chan struct{}{}, willAt: map[string]bool{}, tokenTimeoutFor: map[string]time.Duration{},
 		restoreGate: map[string]chan struct{}{}, restoreAt: map[string]bool{}, deqSeen: map[*broker.Client]bool{},
-		pubIn: map[string]int{}, pubOut: map[string]int{}}
+		pubIn: map[string]int{}, pubOut: map[string]int{}, slowFirst: map[string]time.Duration{}, inPub: map[*broker.Client]int{}}
 }
 
 var errInjected = fmt.Errorf("injected backend failure")
@@ -764,10 +769,22 @@ func (b *RecBackend) Publish(c *broker.Client, m *packet.Message, ack broker.Ack
 	}
 	b.mu.Lock()
 	b.pubIn[id]++
+	b.inPub[c]++
+	overlap := c != nil && b.inPub[c] > 1
+	slow := b.slowFirst[id]
+	delete(b.slowFirst, id)
 	b.mu.Unlock()
+	if overlap {
+		// one connection hands its messages to the backend one after the other (processor, then cleanup)
+		b.log.add(c, "PublishOverlap %s", hx.MsgText(m))
+	}
+	if slow > 0 {
+		time.Sleep(slow)
+	}
 	defer func() {
 		b.mu.Lock()
 		b.pubOut[id]++
+		b.inPub[c]--
 		b.mu.Unlock()
 	}()
 	if site == "will" && c != nil {
